@@ -79,6 +79,13 @@ func (p *pmt) build(h, pos int) {
 		p.build(h-1, pos*2+1)
 	}
 }
+func (p *pmt) height() int {
+	h := 0
+	for p.width(h) > 1 {
+		h++
+	}
+	return h
+}
 func mkPMT(txids [][]byte, matched []bool) *pmt {
 	p := &pmt{n: len(txids), txids: txids, matched: matched}
 	h := 0
@@ -269,6 +276,17 @@ func genMk(r *Rng, n int, w *bufio.Writer) {
 
 // corrupted and malformed raw proofs
 func corruptProof(r *Rng, kind int) []byte {
+	if kind == 13 { // valid proofs of one or two transactions in blocks around the count limit
+		n := r.Pick(16665, 16666, 16667, 16668, 20000, 8192, 8193)
+		txids := randTxids(r, n)
+		matched := make([]bool, n)
+		matched[r.Intn(n)] = true
+		if r.Bool() {
+			matched[n-1] = true
+		}
+		p := mkPMT(txids, matched)
+		return mkBlob(mkHeader(r, p.calcHash(p.height(), 0)), uint32(n), p.hashes, packBits(p.bits))
+	}
 	n := 1 + r.Intn(9)
 	if r.Chance(15) {
 		n = 10 + r.Intn(30)
@@ -358,7 +376,7 @@ func corruptProof(r *Rng, kind int) []byte {
 
 func genProof(r *Rng, n int, w *bufio.Writer) {
 	for i := 0; i < n; i++ {
-		fmt.Fprintf(w, "proof %s\n", hx(corruptProof(r, i%13)))
+		fmt.Fprintf(w, "proof %s\n", hx(corruptProof(r, i%14)))
 	}
 }
 
